@@ -253,6 +253,35 @@ func buildCases(seed int64, thorough bool) []caseSpec {
 				}
 			}
 		}
+		// ---- a pending request on a caller-chosen stream id + a refused Send with the same id, then the fault
+		for _, d := range []struct {
+			setup  string
+			v      int
+			faults []string
+		}{
+			{"lib-lib", 4, []string{"client.Close", "client.ctx", "serverConn.Close", "server.Close"}},
+			{"lib-lib", 5, []string{"client.Close", "server.ctx"}},
+			{"lib-raw", 4, []string{"peer-close", "peer-reset", "client.Close", "client.ctx"}},
+			{"pipe-client", 4, []string{"client.Close", "peer-close", "read-err"}},
+			{"pipe-both", 4, []string{"client.Close", "serverConn.Close", "read-err", "write-err"}},
+		} {
+			for _, f := range d.faults {
+				k := 2
+				if round > 0 {
+					k = 1 + r.Intn(8)
+				}
+				add(caseSpec{Class: "seq", Setup: d.setup, Step: "dup-id", Fault: f, Version: d.v, K: k, After: 3, Receivers: (n+round)%2 == 0})
+				n++
+			}
+		}
+		// ---- write errors on a client connection that has switched to v5 segments (the reads keep blocking)
+		for _, st := range []stepDef{{Step: "ready"}, {Step: "inflight", K: 4}, {Step: "mid-response", K: 4}} {
+			for fi, f := range []string{"write-err", "short-write", "write-block", "read-err"} {
+				after := []int{0, 3, 9}[(n+fi+round)%3]
+				add(caseSpec{Class: "seq", Setup: "pipe-both", Step: st.Step, Fault: f, Version: 5, K: st.K, After: after, Receivers: (n+round)%2 == 0})
+				n++
+			}
+		}
 		// ---- the net.Conn reports an error from Close() (after really closing): k in {0,1,N}, blocked receivers
 		for _, setup := range []string{"pipe-client", "pipe-server", "pipe-both"} {
 			for _, st := range []stepDef{{Step: "ready"}, {Step: "inflight", K: 1}, {Step: "inflight", K: 8}, {Step: "mid-response", K: 4}} {
@@ -268,7 +297,10 @@ func buildCases(seed int64, thorough bool) []caseSpec {
 		}
 		// ---- special scripted scenarios
 		for _, name := range []string{"server.Close/unaccepted-holder", "server.Close/accept-blocked", "server.ctx/accept-blocked", "send-after-close", "double-close", "server.Close/after-MaxConnections-accepts",
-			"ConnectAndInit-failed/no-answer", "ConnectAndInit-failed/unexpected-authenticate", "ConnectAndInit-failed/unexpected-authenticate-libserver", "ConnectAndInit-failed/error-response"} {
+			"ConnectAndInit-failed/no-answer", "ConnectAndInit-failed/unexpected-authenticate", "ConnectAndInit-failed/unexpected-authenticate-libserver", "ConnectAndInit-failed/error-response",
+			"ConnectAndInit-failed/peer-closes-after-AUTH_RESPONSE", "ConnectAndInit-failed/peer-resets-after-AUTH_RESPONSE", "ConnectAndInit-failed/silent-after-AUTH_RESPONSE",
+			"ConnectAndInit-failed/client.ctx-during-auth", "ConnectAndInit-failed/client.Close-during-auth", "ConnectAndInit-failed/error-after-AUTH_RESPONSE",
+			"dup-id/shim-inflight"} {
 			add(caseSpec{Class: "special", Name: name, Setup: "lib-lib", Version: 4})
 		}
 		// ---- rendezvous scenarios (deterministic orderings forced through the log hook)
@@ -325,7 +357,7 @@ func buildCases(seed int64, thorough bool) []caseSpec {
 				base.Version = 4
 			}
 			if setup == "pipe-both" {
-				base.Version = []int{4, 66}[r.Intn(2)]
+				base.Version = []int{4, 5, 66}[r.Intn(3)]
 			}
 			base.Handlers = setup != "lib-raw"
 			base.Senders = []int{1, 2, 4}[r.Intn(3)]
